@@ -22,6 +22,12 @@ CHECKS = {
     'C03': dict(level='model_checking', ref='7 C03', technique='TLA+ model (adversary action AdvForge, action property ForgeryHarmless) + TLC + replay with concrete forged datagrams; exhaustive forgery menu per keyed state',
                 text=IKE + ' - the adversary injects cleartext, foreign-key and reflected datagrams that pass every header check; in addition, at every (role, state) pair with keys the full menu of the property (every exchange type, flag, Message ID, payload list; bit flips, truncations, extensions of the authentic datagram in flight) is delivered and a snapshot incl. the liveness timer compared.',
                 note='a protocol error escaping dispatch_message counts as no reply here (whether the loop survives is C17); IKE_SA_INIT requests always create a new responder and are not messages for an existing IKE_SA.'),
+    'C13': dict(level='model_checking', ref='7 C13', technique='TLA+ timer model IkeTimers.tla (relative deadlines, sweep of main_loop, loss / crash at any step) + TLC + replay under a virtual clock',
+                text='TLC checks Budget, SpacingFine / SpacingUniform (per schedule class), CrashBound, NoRetxAfterAnswer, TimersFire on IkeTimers.tla for every start kind (idle, each request kind, retries after INVALID_KE_PAYLOAD / COOKIE); every transition (fine and uniform schedules) resp. simulated behaviours (mixed schedules) are executed on the real code under a virtual clock through the timer part of main_loop: state, counters, all relative deadlines, transmission gaps and byte identity of every retransmission are compared. Plus: two IKE_SAs of one connection retransmitting concurrently; built-in constants with a dead peer; lifetime jitter bounds.',
+                note='spacing asserted per schedule class (observation O-9); DPD / lifetime scaled down via the configuration; peer abstracted to answer / lose / crash.'),
+    'C18': dict(level='model_checking', ref='7 C18', technique='TLA+ operator specification Cookie.tla (properties as ASSUME over the universe, vectors via JsonSerialize) + Ike.tla cookie scenario (action property CookieFirst) + TLC + replay',
+                text='TLC checks CookieFirst / Bound / RetryAccepted on Cookie.tla over all half-open counts around the threshold x (SPI, nonce, address) x cookie lists and writes the cases as vectors; each vector is built concretely (third endpoint for the address binding) and reply kind, DH operations and table growth are compared. ' + IKE + ' (scenario init_cookie: DH counters per step, duplicate COOKIE responses).',
+                note='cookies are obtained black-box from an armed responder; a right cookie behind a wrong one is not constrained by the property; deterministic cookie secret in the closed world.'),
     'C16': dict(level='model_checking', ref='7 C16', technique='TLA+ model (table as a sequence: NoDupTable, HeldAreListed, routing) + TLC + replay of every transition',
                 text=IKE + '; the IKE_SA table is compared as a sequence and the IKE_SA that processed each datagram is recorded.',
                 note='two endpoints; simultaneous initiations and rekeys give several IKE_SAs per endpoint.'),
